@@ -659,6 +659,11 @@ func prosumerCase(c *h.Case, k int) {
 	n := 10 + rng.Intn(30)
 	var sent []int
 	for i := 1; i <= n; i++ {
+		if i == n/2 && k%3 != 1 {
+			// a quiet period longer than the broker's poll time-out (one or two time-outs): the
+			// loop gets the broker's empty answer and must poll again
+			time.Sleep(time.Duration(1+k%2)*pollTimeout + 7*time.Millisecond)
+		}
 		if w.unicast("pub", i, "t", "consumer") {
 			sent = append(sent, i)
 		}
@@ -741,6 +746,20 @@ func prosumerTopicsCase(c *h.Case, k int) {
 		}
 		if i == 0 {
 			time.Sleep(time.Duration(rng.Intn(3)) * time.Millisecond) // let the poll loop get going
+		}
+	}
+	if len(topics) > 2 && k%2 == 0 {
+		// drop one topic while the poll is parked, then publish to the others
+		time.Sleep(20 * time.Millisecond)
+		ps.Unsubscribe(topics[0])
+		time.Sleep(time.Duration(rng.Intn(3)) * time.Millisecond)
+		for _, topic := range topics[1:] {
+			if w.unicast("pub", next, topic, "consumer") {
+				amu.Lock()
+				accepted[next] = topic
+				amu.Unlock()
+			}
+			next++
 		}
 	}
 	time.Sleep(2*pollTimeout + 50*time.Millisecond)
